@@ -19,14 +19,15 @@ SPEC = {
             '(peers, undecodable strings, the downloader itself, duplicates, empty; fallback to the connected peers), per-peer '
             'latency (unknown / equal / distinct) and advertised height, height range (1-12 heights, start > end), behaviour per '
             '(peer, height): ok / refuse (stream reset) / malformed (5 variants: bad header, undecodable frame, empty item list, '
-            'non-block item, no message) / wrong height (inside or outside the range) / stall (real 10 s timeout, slow lane). '
+            'non-block item, no message) / wrong height (another height inside or outside the range) / stall (the peer accepts the stream and stays silent; slow lane, observed for 13 s). '
             'The controller lets every height goroutine send its first request, then answers exactly one held request at a time '
             '(seeded random order, or the fixed order of a witness) and waits - by the arrival of the next request, the '
             'EventSyncBlock, or a goroutine census (runtime.Stack: the goroutine returned or sits in the 400 ms sleep) - before the '
-            'next answer, so the interleaving of the critical sections is the one the model replays. Streams: witness (the three '
-            'recorded findings), ack, single, guarded-single / guarded-multi (guard of the partial theorems holds and nothing '
+            'next answer, so the interleaving of the critical sections is the one the model replays. Streams: witness (three of the '
+            'recorded findings), limit (one peer, 52-54 heights: requests held at the peer after the burst, largest number of outstanding '
+            'requests ever, heights delivered - against the model\'s burst and limit_of), ack, single, guarded-single / guarded-multi (guard of the partial theorems holds and nothing '
             'fails twice: any spec failure is a violation), multi, wrong, dup, slow-* (own process each: sleeping goroutines, '
-            'peers below the height, stall; the model witnesses cfg_lost and cfg_reask). Observables: acknowledgement, order of '
+            'peers below the height, silent peers; the model witnesses cfg_lost and cfg_reask). Observables: acknowledgement, order of '
             'answers, trace of task-list constructions (Peerstore.LatencyEWMA calls) / requests seen by the peers / blocks '
             'received by a fake blockchain module, handler return. non-trivial = the acknowledgement is not ok or some request '
             'was not answered with the requested block; distinct = distinct Gallina case terms',
@@ -39,25 +40,26 @@ SPEC = {
         'burst are not distinguished (before the first Remove all views are equal and fewer than 20 heights never reach the '
         'per-peer limit, so the burst is confluent) - checked per case by exact equality of the whole observable trace',
         'libp2p transport, msgio framing, protobuf decoding and the chain33 queue are used as they are (not modelled); '
-        'a stall is the 10 s context timeout of downloadBlockFromPeerOld',
+        'a silent peer is modelled as an answer that never comes (ReadStream has no deadline); the harness observes it for 13 s',
         'PeerInfoManager, ConnManager and Peerstore.LatencyEWMA are harness fakes behind the protocol\'s own interfaces; no hook file',
     ],
     'assumptions': [
         'servable = some given peer has an advertised height >= h (availbTask skips lower peers) and answers h with the block of height h',
         'the partial delivery theorem needs: no given peer answers a height of the range with a block of another height '
-        '(finding 3) and at most 50 peers (the retry bound); behaviours do not change during the task',
+        '(finding 3), no given peer stays silent (finding 4) and at most 50 peers (the retry bound); behaviours do not change during the task',
         '"not asked again" is checked for pid lists without duplicates (a peer named twice has two task entries)',
-        'p.Ctx is not cancelled during the task; TaskNum limits (20-50 per peer) are modelled but not reached by the harness (at most 12 heights)',
+        'p.Ctx is not cancelled during the task; the TaskNum limit is exercised only by the limit stream (one peer), where the '
+        'comparison is on counts (the wake-up order of sleeping goroutines is timing dependent), not on the whole trace',
         'phase-one re-asks (finding 1) and phase-two re-asks (finding 2) are recorded findings; the property text\'s "within the same task" is read as including checkTask',
     ],
     'manifest': {
-        'level_text': 'partial: termination, the single-goroutine core, soundness of everything handed over and delivery of every '
-                      'servable height (guard: no wrong-height answers, <= 50 peers) are proved for ALL schedules of the transition system; '
+        'level_text': 'partial: bounded work and (without silent peers) progress, the single-goroutine core, soundness of everything handed over and delivery of every '
+                      'servable height (guard: no wrong-height answers, no silent peers, <= 50 peers) are proved for ALL schedules of the transition system; '
                       '"failed peer not asked again" is refuted for two or more heights (aliasing) and across the second phase, both '
                       'reproduced on the Go code; the tie to the Go code samples schedules (serialised by the harness), it does not enumerate them',
         'level_note': 'model = transition system with the shared backing array, per-goroutine view lengths, shared TaskNum/Index, '
-                      'retry counters; peers, latencies, advertised heights are inputs; three known findings (aliasing re-ask, second-phase re-ask, '
-                      'wrong-height block accepted)',
+                      'retry counters; peers, latencies, advertised heights are inputs; four known findings (aliasing re-ask, second-phase re-ask, '
+                      'wrong-height block accepted, silent peer blocks the task for ever)',
         'technique': 'Coq proof (measure for termination, invariant over all schedules, simulation of the single goroutine by a '
                      'recursive function, vm_compute witnesses for the refutations) + in-kernel trace correspondence on controller-serialised runs',
     },
